@@ -86,6 +86,11 @@ def check_ls(cfg, w, rep, lf):
     if rarg[0] != "Child":
         rep.violation("a-reader-arg:%s" % key, "listing `%s` reads %s instead of the walked entry" % (short(lf.path), class_str(rarg)),
                       loc=span_str(rcall[1].span), config=cfg, rule="a-same-stream")
+    for blk_, t_ in inplace_changes_of_records(w, pb, set(R.bucket_readers)):
+        rep.violation("b-inplace:%s" % key,
+                      "listing `%s` changes the record vector in place (`%s`) before de-duplicating: 'last record of a key wins' is decided "
+                      "by file order, which this no longer is — listing and lookup would disagree" % (short(lf.path), t_.callee.path.rsplit("::", 1)[-1]),
+                      loc=span_str(t_.span), config=cfg, rule="b-dedup")
     # pipeline term of the success return
     succ = [rd for rd in ret_defs(prog, pb) if rd.cls == "success"]
     pipe = None
